@@ -99,9 +99,10 @@ func runC03(c *Ctx) {
 	newReg := clause("no existing registration", T(`^\((`+regPhi+`|%d\.(pfxP|wcP|p)rocRegMap\[%msg\.Procedure\]) == nil\)$`))
 	c.Guard(r3, sr, "new registration id", `^call:wamp\.\(\*IDGen\)\.Next\(%d\.idGen\)$`, 1, newReg)
 	c.Fields(r3, sr, "REGISTERED literal", "wamp.Registered", nil, map[string]string{
-		"Request": `^%msg\.Request$`, "Registration": `^phi\(call:wamp\.\(\*IDGen\)\.Next\(%d\.idGen\)\|` + regPhi + `\.id\)$`}, 1)
-	c.Has(r3, sr, "callee's registration set updated", `^mapupdate:(%d\.calleeRegIDSet\[%callee\]|phi\(%d\.calleeRegIDSet\[%callee\],ok#0\|makemap\(map\[wamp\.ID\]struct\{\}\)\))\[phi\(call:wamp\.\(\*IDGen\)\.Next\(%d\.idGen\)\|`+regPhi+`\.id\)\]=nil$`, 1)
-	c.R.Floor(r3, 22)
+		"Request": `^%msg\.Request$`, "Registration": `^phi\((call:wamp\.\(\*IDGen\)\.Next\(%d\.idGen\)|new\(router\.registration\)\.id)\|` + regPhi + `\.id\)$`}, 1)
+	c.Has(r3, sr, "callee's registration set updated", `^mapupdate:(%d\.calleeRegIDSet\[%callee\]|phi\(%d\.calleeRegIDSet\[%callee\],ok#0\|makemap\(map\[wamp\.ID\]struct\{\}\)\))\[phi\((call:wamp\.\(\*IDGen\)\.Next\(%d\.idGen\)|new\(router\.registration\)\.id)\|`+regPhi+`\.id\)\]=nil$`, 1)
+	c.Fields(r3, sr, "a new registration gets a fresh id", "router.registration", nil, map[string]string{"id": `^call:wamp\.\(\*IDGen\)\.Next\(%d\.idGen\)$`}, 1)
+	c.R.Floor(r3, 23)
 
 	// R4 policy set agreement
 	const r4 = "C03.R4 accepted invocation policies = arms of the selection switch"
@@ -299,7 +300,7 @@ func rulePolicyAgreement(c *Ctx, r4 string) {
 		okEdges = append(okEdges, T(`^\(call:wamp\.AsString\(%msg\.Options\["invoke"\]\)#0 == `+q(p)+`\)$`))
 	}
 	c.Guard(r4, reg, "hand-off", `^send:%d\.actionChan<-closure:`, 1, clause("invoke policy is a known one", okEdges...))
-	c.Has(r4, reg+"$1", "validated values are the ones registered", `^call:router\.\(\*dealer\)\.syncRegister\(\^d, \^callee, \^msg, \^match, \^invoke, \^disclose, \^forwardTimeout, \^wampURI\)$`, 1)
+	c.Has(r4, reg+"$1", "validated values are the ones registered", `^call:router\.\(\*dealer\)\.syncRegister\(\^d, \^callee, \^msg, \^match, \^invoke, \^disclose, \^forwardTimeout(, \^wampURI)?\)$`, 1)
 	for _, w := range [][2]string{
 		{"match", `^call:wamp\.AsString\(%msg\.Options\["match"\]\)#0$`},
 		{"invoke", `^call:wamp\.AsString\(%msg\.Options\["invoke"\]\)#0$`},
@@ -307,6 +308,13 @@ func rulePolicyAgreement(c *Ctx, r4 string) {
 		{"disclose", `^%msg\.Options\["disclose_caller"\]\.\(bool\),ok#0$`},
 		{"forwardTimeout", `^%msg\.Options\["forward_timeout"\]\.\(bool\),ok#0$`},
 	} {
+		if w[0] == "wampURI" {
+			// the restricted-procedure mark may be recomputed by syncRegister instead of being captured
+			if fn := c.P.Func(reg); fn != nil && len(matches(fn, `^store:&local:wampURI=`)) == 0 {
+				c.Has(r4, dlr+"syncRegister", "restricted-procedure mark computed from the procedure", `^call:strings\.HasPrefix\(%msg\.Procedure, "wamp\."\)$`, 1)
+				continue
+			}
+		}
 		c.localIs(r4, reg, w[0], w[1])
 	}
 	// selection arms pick from the registration's callees
